@@ -34,7 +34,7 @@ pub fn run(ctx: &mut Ctx) {
         for _ in 0..cfgs_per_size {
             let mw = *ctx.rng.pick(&[8usize, 16, 32]);
             let cfg = gen_cfg(&mut ctx.rng, mw, &["high", "low", "default", "rs"], &ENGINES, &[sb]);
-            let originals: Vec<Vec<u8>> = (0..cfg.k).map(|_| ctx.rng.bytes(sb)).collect();
+            let originals: Vec<Vec<u8>> = gen_originals(&mut ctx.rng, cfg.k, sb);
             let Some(recovery) = encode_impl(&cfg, &originals) else { continue };
             let (go, gr, _) = gen_received(&mut ctx.rng, cfg.k, cfg.r);
             // a few slots: first, last, around the block boundary / tail split, random
